@@ -11,3 +11,8 @@ M("c07_exec_loop", ["C07"], "loop_one_push", tier="quick",
   desc="Server::handle_exec execution loop, one arbitrary iteration: exactly one result slot is pushed per queued command on every path (an Err of a queued command becomes an error frame in its slot) and the loop cannot be left mid-iteration.",
   assumptions=["iteration is over the drained queue in order (slice iterator)"],
   fn=r"::handle_exec$", head=r"Iter<'_, Vec<RespFrame>> as Iterator>::next$", push=r"Vec::<RespFrame>::push$", count=1)
+M("c07_nested_multi_no_effect", ["C07"], "reach_allow", tier="quick",
+  desc="transactions::handle_multi with conn.transaction_state.in_transaction == true (a nested MULTI, which is refused): no call that empties or changes the queue (VecDeque::clear / push / drain / take) is reachable - a refused MULTI must leave the already queued commands alone",
+  fn=r"transactions::handle_multi$|^handle_multi$", assume_place=[(r"TransactionState\)\.0: bool", True)],
+  deny=[r"VecDeque::(clear|push_back|push_front|drain|truncate|pop_front|pop_back)$", r"mem::take", r"HashMap::clear$"],
+  must_reach=[r"RespFrame::error$"])
